@@ -44,6 +44,32 @@ FLAVORS = {
 }
 
 
+def dynamic_method(prog: Program, st, fi: FuncInfo, args):
+    """Dynamic dispatch of the analysed entry point: a method named through Quantity / Unit / QuantityMeta is looked
+    up on the class the receiver actually has (Money / Currency / MoneyMeta for money types), so that an override in
+    the subclass is what gets evaluated."""
+    if fi.cls is None or not args or fi.kind in ("static",):
+        return fi
+    recv = args[0]
+    dyn = None
+    try:
+        if isinstance(recv, QtyV) and st.T(recv.tid).money is True:
+            dyn = "Money"
+        elif isinstance(recv, UnitV) and st.T(st.unit_type(recv.uid)).money is True:
+            dyn = "Currency"
+        elif isinstance(recv, ClsV) and st.T(recv.tid).money is True and not st.T(recv.tid).generic:
+            dyn = "MoneyMeta"
+    except Exception:
+        return fi
+    if dyn is None or not prog.has_cls(dyn):
+        return fi
+    dci = prog.cls(dyn)
+    if not prog.is_subclass(dci, fi.cls.name) or dci is fi.cls:
+        return fi
+    over = prog.lookup(dci, fi.name)
+    return over if over is not None and over.node is not None else fi
+
+
 def run_case(prog: Program, fi: FuncInfo, setup: Callable, *, inline_ctor=False,
              inline_rate_ctor=False, max_depth=10, cache_hits=False) -> List[Outcome]:
     def run(oracle):
@@ -53,8 +79,9 @@ def run_case(prog: Program, fi: FuncInfo, setup: Callable, *, inline_ctor=False,
         interp = Interp(prog, st, models, max_depth=max_depth)
         ctx = Ctx(st, models)
         args, kwargs = setup(ctx)
+        target = dynamic_method(prog, st, fi, args)
         try:
-            v = interp.call_function(fi, args, kwargs)
+            v = interp.call_function(target, args, kwargs)
             out = Outcome("return", value=v, state=st)
         except AbsRaise as ar:
             out = Outcome("raise", exc=ar.exc, state=st)
